@@ -74,6 +74,8 @@ pub struct KeyRec {
     pub honest: bool,
     /// what the generator knows about validity of an injected key (None = unknown)
     pub expect_valid: Option<bool>,
+    /// alternative stored form that every restart re-parses (PEM for v1 keys)
+    pub alt_store: Option<Vec<u8>>,
 }
 
 #[derive(Clone, Debug)]
@@ -296,6 +298,7 @@ impl<'p> World<'p> {
         }
         let be = backend(bk);
         let parsed = match (&rec.text, &rec.raw) {
+            _ if rec.alt_store.is_some() => be.key_from_raw(rec.kind, rec.alt_store.as_ref().unwrap()),
             (Some(t), _) => be.key_parse(rec.kind, t),
             (None, Some(r)) => be.key_from_raw(rec.kind, r),
             _ => return None,
@@ -411,13 +414,13 @@ impl<'p> World<'p> {
             Step::KeyInject { slot, family, kind, text } => {
                 self.keys.insert(
                     *slot,
-                    KeyRec { family: *family, kind: *kind, text: Some(text.clone()), raw: None, honest: false, expect_valid: None },
+                    KeyRec { family: *family, kind: *kind, text: Some(text.clone()), raw: None, honest: false, expect_valid: None, alt_store: None },
                 );
             }
             Step::KeyFromRaw { slot, family, kind, bytes } => {
                 self.keys.insert(
                     *slot,
-                    KeyRec { family: *family, kind: *kind, text: None, raw: Some(bytes.get()), honest: false, expect_valid: None },
+                    KeyRec { family: *family, kind: *kind, text: None, raw: Some(bytes.get()), honest: false, expect_valid: None, alt_store: None },
                 );
             }
             Step::PublicOf { slot, from, node } => self.public_of(*slot, *from, *node),
@@ -446,7 +449,7 @@ impl<'p> World<'p> {
                 self.ref_wrap(*blob, *family, *wk, *key, with, params, entropy)
             }
             Step::Id { node, slot } => self.id(*node, *slot),
-            Step::Offer { text, faults, reader, artifact } => crate::textcheck::offer(self, text, faults, *reader, *artifact),
+            Step::Offer { text, faults, reader, artifact, expect, why } => crate::textcheck::offer(self, text, faults, *reader, *artifact, *expect, why),
             Step::Serde { text, reader, artifact } => crate::textcheck::serde_check(self, text, *reader, *artifact),
             Step::Threads { spec } => crate::sched::run_threads(self, spec),
             Step::History { node, op, count, tag } => crate::hist::run_history(self, *node, *op, *count, *tag),
@@ -482,7 +485,7 @@ impl<'p> World<'p> {
                 let raw = raw.unwrap();
                 self.check_key_draws(bk, kind, &raw, &draws);
                 self.obs(&format!("key {}", hex::encode(&raw[..raw.len().min(64)])));
-                self.keys.insert(slot, KeyRec { family: bk.family(), kind, text, raw: Some(raw), honest: true, expect_valid: Some(true) });
+                self.keys.insert(slot, KeyRec { family: bk.family(), kind, text, raw: Some(raw), honest: true, expect_valid: Some(true), alt_store: None });
                 self.cache.insert((node, slot), h);
             }
             Out::Err(e) => {
@@ -543,12 +546,7 @@ impl<'p> World<'p> {
             Out::Ok(h) => {
                 let text = be.key_text(kind, &h).ok();
                 let raw = be.key_raw(kind, &h).ok();
-                let rec = if pem {
-                    // keep the PEM bytes as the stored form: every restart re-parses PEM
-                    KeyRec { family, kind, text: None, raw: Some(text_pem.as_bytes().to_vec()), honest: false, expect_valid: Some(true) }
-                } else {
-                    KeyRec { family, kind, text, raw, honest: true, expect_valid: Some(true) }
-                };
+                let rec = KeyRec { family, kind, text, raw, honest: true, expect_valid: Some(true), alt_store: if pem { Some(text_pem.as_bytes().to_vec()) } else { None } };
                 self.keys.insert(slot, rec);
             }
             Out::Err(e) => self.violate("C08", "fixture-key-rejected", bk, &format!("parse-{}", kind.name()), "", format!("valid RSA fixture rejected: {e:?}")),
@@ -579,7 +577,7 @@ impl<'p> World<'p> {
                             }
                         }
                         self.obs(&format!("pub {}", hex::encode(&raw[..raw.len().min(64)])));
-                        self.keys.insert(slot, KeyRec { family: bk.family(), kind: Kind::Public, text: Some(text), raw: Some(raw), honest: from_rec.honest, expect_valid: from_rec.expect_valid });
+                        self.keys.insert(slot, KeyRec { family: bk.family(), kind: Kind::Public, text: Some(text), raw: Some(raw), honest: from_rec.honest, expect_valid: from_rec.expect_valid, alt_store: None });
                         self.cache.insert((node, slot), pk);
                     }
                     (a, b) => {
@@ -1039,7 +1037,7 @@ impl<'p> World<'p> {
                         }
                         if let Some(pw) = pair_with {
                             if let Some(other) = self.results.get(&pw) {
-                                if *other != r.class() {
+                                if other.starts_with("err") && *other != r.class() {
                                     let other = other.clone();
                                     self.violate("C12", "error-depends-on-payload", bk, &op, &fclass, format!("same corruption on two tokens differing only in payload content: {} vs {}", other, r.class()));
                                 }
@@ -1292,7 +1290,7 @@ impl<'p> World<'p> {
         if let Some(slots) = self.stored.get(&text) {
             for s in slots {
                 let b = &self.blobs[s];
-                if b.family == bk.family() && b.wk == wk && b.key_kind == kk && b.secret == sec_raw {
+                if b.family == bk.family() && b.wk == wk && b.key_kind == kk && same_secret(b.family, wk, &b.secret, &sec_raw) {
                     authentic = Some(b.clone());
                 }
             }
@@ -1459,6 +1457,26 @@ impl<'p> World<'p> {
     }
 }
 
+/// Equality of unwrapping secrets as the *specified* KDF sees them: PBKDF2-HMAC-SHA384 (k1/k3)
+/// zero-pads keys shorter than the 128-byte block, so passwords that differ only in trailing
+/// NUL bytes are the same password by construction of the format, not by a library defect.
+pub fn same_secret(family: u8, wk: WrapKind, a: &[u8], b: &[u8]) -> bool {
+    if a == b {
+        return true;
+    }
+    if wk == WrapKind::Pw && (family == 1 || family == 3) && a.len() <= 128 && b.len() <= 128 {
+        let strip = |x: &[u8]| {
+            let mut n = x.len();
+            while n > 0 && x[n - 1] == 0 {
+                n -= 1;
+            }
+            x[..n].to_vec()
+        };
+        return strip(a) == strip(b);
+    }
+    false
+}
+
 pub fn short_key_detail(rec: &KeyRec) -> String {
     match (&rec.text, &rec.raw) {
         (Some(t), _) if t.len() <= 40 => t.clone(),
@@ -1510,6 +1528,11 @@ fn vspec_shape(v: &VSpec) -> String {
 /// The claims as the verifier's payload type would decode them (None: not decodable).
 fn convert_claims(c: &Claims, pk: PayloadKind) -> Option<Claims> {
     if c.kind() == pk {
+        if let Claims::Probe(b) = c {
+            if b.starts_with(payloads::PROBE_FAIL_MARK) {
+                return None;
+            }
+        }
         return Some(c.clone());
     }
     let bytes: Vec<u8> = match c {
